@@ -54,19 +54,21 @@ Proof. induction xs as [|[i x] r IH]; cbn [add_results]; nr. exact IH. Qed.
 Lemma resolve_field_noraise : forall k fb xs, noraise (resolve_field k fb xs).
 Proof.
   intros k fb xs. unfold resolve_field. apply noraise_bind; [apply handle_start_noraise|].
-  intros sf. destruct fb; (apply noraise_bind; [apply run_finish_noraise | intros ?; apply noraise_ret]).
+  intros sf. destruct (snd fb); (apply noraise_bind; [apply run_finish_noraise | intros ?; apply noraise_ret]).
 Qed.
 
 Lemma exec_fields_noraise : forall fields k xs, noraise (exec_fields k fields xs).
 Proof.
   induction fields as [|fb r IH]; intros k xs; cbn [exec_fields]; [apply noraise_ret|].
   apply noraise_bind; [apply resolve_field_noraise|]. intros a.
-  apply noraise_if; [apply noraise_ret|].
   apply noraise_bind; [apply IH|]. intros b. apply noraise_ret.
 Qed.
 
 Lemma run_body_noraise : forall c xs, noraise (run_body c xs).
-Proof. intros [| | | |fields] xs; cbn [run_body]; try apply noraise_ret. apply exec_fields_noraise. Qed.
+Proof.
+  intros [| | | |mut roots] xs; cbn [run_body]; try apply noraise_ret.
+  apply noraise_bind; [apply exec_fields_noraise | intros a; apply noraise_ret].
+Qed.
 
 Lemma execute_plan_noraise : forall c xs, noraise (execute_plan c xs).
 Proof.
@@ -180,18 +182,18 @@ Fixpoint res_keys (xs : list (N * ext)) : list N :=
   | ix :: r => (match x_has (snd ix) with HTrue => if is_ok (x_get (snd ix)) then [x_name (snd ix)] else [] | _ => [] end) ++ res_keys r
   end.
 
-Definition rn (fb : rbeh) : N := if rfails fb then 1 else 0.
+Definition rn (st : step) : N := if rerrs (snd st) then 1 else 0.
 Definition block (ph : phase) (n : N) (mid : list event) (xs : list (N * ext)) : list event :=
   starts ph xs ++ mid ++ fins ph n xs.
-Fixpoint fields_log (k : N) (fields : list rbeh) (xs : list (N * ext)) : list event :=
+Fixpoint fields_log (k : N) (fields : list step) (xs : list (N * ext)) : list event :=
   match fields with
   | [] => []
-  | fb :: r => block (PResolve k) (rn fb) [] xs ++ if is_fatal fb then [] else fields_log (k + 1) r xs
+  | fb :: r => block (PResolve k) (rout fb) [] xs ++ fields_log (k + 1) r xs
   end.
-Fixpoint fields_errs (k : N) (fields : list rbeh) (xs : list (N * ext)) : N :=
+Fixpoint fields_errs (k : N) (fields : list step) (xs : list (N * ext)) : N :=
   match fields with
   | [] => 0
-  | fb :: r => (start_errs (PResolve k) xs + fin_errs (PResolve k) xs + rn fb) + if is_fatal fb then 0 else fields_errs (k + 1) r xs
+  | fb :: r => (start_errs (PResolve k) xs + fin_errs (PResolve k) xs + rn fb) + fields_errs (k + 1) r xs
   end.
 
 Lemma handle_inits_eq : forall xs, handle_inits xs = (inits xs, Ret (init_errs xs)).
@@ -226,12 +228,13 @@ Qed.
 
 Lemma resolve_field_eq : forall k fb xs,
   resolve_field k fb xs =
-  (block (PResolve k) (rn fb) [] xs, Ret (start_errs (PResolve k) xs + fin_errs (PResolve k) xs + rn fb)).
+  (block (PResolve k) (rout fb) [] xs, Ret (start_errs (PResolve k) xs + fin_errs (PResolve k) xs + rn fb)).
 Proof.
   intros k fb xs. unfold resolve_field. rewrite handle_start_eq, bind_ret_eq. cbn [fst snd].
   unfold block. cbn [app].
-  destruct fb; rewrite run_finish_eq, bind_ret_eq, prepend_ret; unfold prepend;
-    cbn [rn rfails fst snd]; rewrite ?N.add_0_r; reflexivity.
+  unfold rn. destruct fb as [id rb]. cbn [snd].
+  destruct rb; rewrite run_finish_eq, bind_ret_eq, prepend_ret; unfold prepend;
+    cbn [rerrs fst snd]; rewrite ?N.add_0_r; reflexivity.
 Qed.
 
 Lemma exec_fields_eq : forall fields k xs,
@@ -239,17 +242,18 @@ Lemma exec_fields_eq : forall fields k xs,
 Proof.
   induction fields as [|fb r IH]; intros k xs; [reflexivity|].
   cbn [exec_fields fields_log fields_errs]. rewrite resolve_field_eq, bind_ret_eq.
-  destruct (is_fatal fb).
-  - rewrite prepend_ret, app_nil_r, N.add_0_r. reflexivity.
-  - rewrite IH, bind_ret_eq, prepend_ret. unfold prepend; cbn [fst snd]. reflexivity.
+  rewrite IH, bind_ret_eq, prepend_ret. unfold prepend; cbn [fst snd]. reflexivity.
 Qed.
 
-Definition body_log (c : cls) xs : list event := match c with CExec fields => fields_log 0 fields xs | _ => [] end.
+Definition body_log (c : cls) xs : list event := match c with CExec _ _ => fields_log 0 (sched c) xs | _ => [] end.
 Definition body_errs (c : cls) xs : N :=
-  match c with CVarErr => 1 | CExec fields => fields_errs 0 fields xs | _ => 0 end.
+  match c with CVarErr => 1 | CExec _ _ => fields_errs 0 (sched c) xs + thunk_fails c | _ => 0 end.
 
 Lemma run_body_eq : forall c xs, run_body c xs = (body_log c xs, Ret (body_errs c xs)).
-Proof. intros [| | | |fields] xs; cbn [run_body body_log body_errs]; try reflexivity. apply exec_fields_eq. Qed.
+Proof.
+  intros [| | | |mut roots] xs; cbn [run_body body_log body_errs]; try reflexivity.
+  rewrite exec_fields_eq, bind_ret_eq, prepend_ret. reflexivity.
+Qed.
 
 (* which early return is taken: decided by all extensions together *)
 Record flags := mkFlags {
@@ -457,11 +461,11 @@ Qed.
 Lemma proj_fields_log : forall e fields k xs, proj e (fields_log k fields xs) = fields_log k fields (pick e xs).
 Proof.
   intros e. induction fields as [|fb r IH]; intros k xs; [reflexivity|].
-  cbn [fields_log]. rewrite proj_app, proj_block. destruct (is_fatal fb); [reflexivity|]. rewrite IH. reflexivity.
+  cbn [fields_log]. rewrite proj_app, proj_block. rewrite IH. reflexivity.
 Qed.
 
 Lemma proj_body_log : forall e c xs, proj e (body_log c xs) = body_log c (pick e xs).
-Proof. intros e [| | | |fields] xs; try reflexivity. apply proj_fields_log. Qed.
+Proof. intros e [| | | |mut roots] xs; try reflexivity. apply proj_fields_log. Qed.
 
 Lemma proj_shape : forall e F c xs, proj e (shape F c xs) = shape F c (pick e xs).
 Proof.
@@ -661,7 +665,7 @@ Proof.
   - apply G_nil. le2_solve.
   - apply (G_app (6, 2 * (k + 1))).
     + eapply G_weaken; [| |apply G_block0]; le2_solve.
-    + destruct (is_fatal fb); [apply G_nil; le2_solve | apply IH].
+    + apply IH.
 Qed.
 
 Lemma G_inits : forall e x, G (0, 0) (1, 0) (inits [(e, x)]).
@@ -680,8 +684,8 @@ Qed.
 
 Lemma G_body : forall c e x, G (nxt (rs PExec)) (rf PExec) (body_log c [(e, x)]).
 Proof.
-  intros c e x. destruct c as [| | | |fields]; cbn [body_log]; try (apply G_nil; le2_solve).
-  eapply G_weaken; [| |apply (G_fields fields 0)]; le2_solve.
+  intros c e x. destruct c as [| | | |mut roots]; cbn [body_log]; try (apply G_nil; le2_solve).
+  eapply G_weaken; [| |apply (G_fields (sched (CExec mut roots)) 0)]; le2_solve.
 Qed.
 
 Lemma G_exec_part : forall F c e x, G (5, 0) (10, 0) (exec_part F c [(e, x)]).
@@ -726,7 +730,7 @@ Proof.
 Qed.
 
 Lemma fields_log_nil : forall fields k, fields_log k fields [] = [].
-Proof. induction fields as [|fb r IH]; intros k; [reflexivity|]. cbn [fields_log]. rewrite IH. destruct (is_fatal fb); reflexivity. Qed.
+Proof. induction fields as [|fb r IH]; intros k; [reflexivity|]. cbn [fields_log]. rewrite IH. reflexivity. Qed.
 
 Lemma shape_nil : forall F c, shape F c [] = [].
 Proof.
@@ -904,12 +908,14 @@ Qed.
 Lemma fail_fields : forall fields k xs, count is_failure (fields_log k fields xs) <= fields_errs k fields xs.
 Proof.
   induction fields as [|fb r IH]; intros k xs; [cbn; lia|].
-  cbn [fields_log fields_errs]. rewrite count_app, fail_block, count_nil. specialize (IH (k + 1) xs).
-  destruct (is_fatal fb); [rewrite count_nil|]; lia.
+  cbn [fields_log fields_errs]. rewrite count_app, fail_block, count_nil. specialize (IH (k + 1) xs). lia.
 Qed.
 
 Lemma fail_body : forall c xs, count is_failure (body_log c xs) <= body_errs c xs.
-Proof. intros [| | | |fields] xs; cbn [body_log body_errs]; try (rewrite count_nil; lia). apply fail_fields. Qed.
+Proof.
+  intros [| | | |mut roots] xs; cbn [body_log body_errs]; try (rewrite count_nil; lia).
+  pose proof (fail_fields (sched (CExec mut roots)) 0 xs). lia.
+Qed.
 
 Lemma nz_false : forall n, nz n = false -> n = 0.
 Proof. intros n H. unfold nz in H. apply negb_false_iff in H. apply N.eqb_eq in H. exact H. Qed.
@@ -1110,7 +1116,7 @@ Lemma quiet_fields : forall fields k xs, quiet (fields_log k fields xs).
 Proof.
   induction fields as [|fb r IH]; intros k xs ev I; [contradiction|].
   cbn [fields_log] in I. apply in_app_or in I.
-  destruct I as [I|I]; [|destruct (is_fatal fb); [contradiction | eapply IH; exact I]].
+  destruct I as [I|I]; [|eapply IH; exact I].
   apply in_block0 in I. destruct I as [I|I].
   - apply in_starts in I. destruct I as [ix [_ E]]. subst ev. reflexivity.
   - apply in_fins in I. destruct I as [ix [b [_ [_ E]]]]. subst ev. reflexivity.
@@ -1125,7 +1131,7 @@ Proof.
       pose proof (start_errs_zero PExec xs ix Z I) as NF.
       cbn [fails_request]. destruct (sres_of (start_beh PExec (snd ix))); try reflexivity. congruence.
     + apply in_app_or in I. destruct I as [I|I].
-      * destruct c as [| | | |fields]; cbn [body_log] in I; try contradiction. eapply quiet_fields; exact I.
+      * destruct c as [| | | |mut roots]; cbn [body_log] in I; try contradiction. eapply quiet_fields; exact I.
       * apply in_fins in I. destruct I as [ix [b [_ [_ E]]]]. subst ev. reflexivity.
   - unfold results in I. apply in_flat_map in I. destruct I as [ix [_ I]]. unfold res_ev in I.
     destruct (x_has (snd ix)); cbn in I; repeat (destruct I as [I|I]; [subst ev; reflexivity|]); contradiction.
